@@ -505,32 +505,55 @@ func compareOutcome(drv *Driver, o *cascadeOutcome, post NodeSt, eff string, new
 		srecs = append(srecs, &spawnRec{peer: peer, at: at, round: nr - 1})
 	}
 	rounds := map[*Call]string{}
-	for _, c := range newCalls {
-		var match *spawnRec
-		var want []string
-		for _, sr := range srecs {
-			if sr.used || sr.peer != c.To {
+	// which spawn may have produced which call: the request must be what prepareAE builds in one of
+	// the states after the spawn. Calls and spawns are then matched one to one (backtracking: a
+	// call of a later round can also look like one of an earlier spawn).
+	cand := make([][]int, len(newCalls))
+	wants := make([][]string, len(newCalls))
+	for ci, c := range newCalls {
+		for si, sr := range srecs {
+			if sr.peer != c.To {
 				continue
 			}
-			ok := false
 			for j := sr.at; j < len(o.states); j++ {
 				pa, _ := drv.Ask(fmt.Sprintf("PREPAE | %s | peer=%d", o.states[j], sr.peer))
-				want = append(want, pa)
+				wants[ci] = append(wants[ci], pa)
 				if (c.Kind == "AE" && pa == aeReqStr(c.AE)) || (c.Kind == "IS" && pa == "snapshot") {
-					ok = true
+					cand[ci] = append(cand[ci], si)
 					break
 				}
 			}
-			if ok {
-				match = sr
-				break
+		}
+	}
+	assign := make([]int, len(newCalls))
+	var match func(ci int) bool
+	match = func(ci int) bool {
+		if ci == len(newCalls) {
+			return true
+		}
+		for _, si := range cand[ci] {
+			if srecs[si].used {
+				continue
+			}
+			srecs[si].used = true
+			assign[ci] = si
+			if match(ci + 1) {
+				return true
+			}
+			srecs[si].used = false
+		}
+		return false
+	}
+	if !match(0) {
+		for ci, c := range newCalls {
+			if len(cand[ci]) == 0 {
+				return &Finding{Kind: "mismatch", Property: "C04", Case: line, Impl: c.String(), Model: strings.Join(wants[ci], " / "), Diff: []string{"a request was sent that prepareAE does not build in any state after its spawn"}}, nil
 			}
 		}
-		if match == nil {
-			return &Finding{Kind: "mismatch", Property: "C04", Case: line, Impl: c.String(), Model: strings.Join(want, " / "), Diff: []string{"a request was sent that prepareAE does not build in any state after its spawn"}}, nil
-		}
-		match.used = true
-		rounds[c] = strconv.Itoa(match.round)
+		return &Finding{Kind: "mismatch", Property: "C04", Case: line, Impl: fmt.Sprintf("%d requests", len(newCalls)), Model: fmt.Sprintf("%d spawns", len(srecs)), Diff: []string{"the requests sent cannot be matched one to one with the goroutines the model spawns"}}, nil
+	}
+	for ci, c := range newCalls {
+		rounds[c] = strconv.Itoa(srecs[assign[ci]].round)
 	}
 	for _, sr := range srecs {
 		if sr.used {
